@@ -143,6 +143,9 @@ type scenario struct {
 	// is a *net.UnixConn), "tcp" a loopback TCP connection (*net.TCPConn).  The
 	// byte monitor then reads what the peer's end received.
 	Transport string `json:"transport,omitempty"`
+	// PreAuthn: the session is created with the Authn bit already set (a caller
+	// that authenticated out of band) on a connection that is not secure.
+	PreAuthn bool `json:"initial_state_authn,omitempty"`
 	// Info: the client also configures an informational feature (no Negotiate)
 	// whose Parse stores data; the clear-text "others" list carries it with
 	// v='clear'.  TLSInfo: the first protected list carries it with v='tls'.
@@ -226,6 +229,11 @@ func genScenario(r *rand.Rand) scenario {
 	}
 	if sc.Wrap == "" && r.Intn(6) == 0 {
 		sc.Transport = []string{"unix", "tcp"}[r.Intn(2)]
+	}
+	if r.Intn(10) == 0 {
+		// nothing is left to authenticate inside TLS: the protected stream offers
+		// an empty list
+		sc.PreAuthn, sc.InTLS = true, "features-empty"
 	}
 	return sc
 }
@@ -942,6 +950,10 @@ func runSession(c *core.Case, sc scenario, stls xmpp.StreamFeature, sh *shared) 
 	if sc.S2S {
 		state0 = xmpp.S2S
 	}
+	if sc.PreAuthn {
+		state0 |= xmpp.Authn
+		c.Count("sessions_created_with_the_authn_bit_set", 1)
+	}
 	rw := wrapTransport(sc.Wrap, libConn)
 
 	var s *xmpp.Session
@@ -1011,6 +1023,12 @@ func buildFeatures(sc scenario, stls xmpp.StreamFeature, sink func(instCall)) []
 	var feats []xmpp.StreamFeature
 	for _, i := range sc.Order {
 		if i == 3 && !sc.Inst {
+			continue
+		}
+		if i == 2 && sc.PreAuthn {
+			// the built-in bind feature only asks for Authn; on a session created
+			// with that bit it is not one of the "features that require a secured
+			// stream" the statement is about
 			continue
 		}
 		feats = append(feats, all[i])
@@ -1328,7 +1346,7 @@ func judge(c *core.Case, sc scenario, res result, prior []string) {
 			c.Count("ready_over_tls", 1)
 		}
 	}
-	if res.State&xmpp.Authn != 0 && !res.Handshook {
+	if res.State&xmpp.Authn != 0 && !res.Handshook && !sc.PreAuthn {
 		c.Violate("clear:authn-without-tls", "Authn bit set without a completed handshake: state=%b (scenario %+v)", res.State, sc)
 	}
 	for _, ic := range res.Inst {
@@ -1791,6 +1809,8 @@ var fixedGroups = []func(c *core.Case){
 	func(c *core.Case) { fixedPlain(c, scenario{S2S: true, Adv: "unknown-only"}, "s2s") },
 	func(c *core.Case) { fixedPlain(c, scenario{S2S: true, Adv: "mechs-only"}, "s2s") },
 	// look-alike elements in the STARTTLS namespace
+	func(c *core.Case) { fixedPlain(c, scenario{Adv: "empty", PreAuthn: true, InTLS: "features-empty"}, "preauthn") },
+	func(c *core.Case) { fixedPlain(c, scenario{Adv: "mechs+bind", PreAuthn: true, InTLS: "features-empty"}, "preauthn") },
 	func(c *core.Case) { fixedPlain(c, scenario{Adv: "tlsns-other"}, "tlsns") },
 	func(c *core.Case) { fixedPlain(c, scenario{Adv: "tlsns-other+mechs"}, "tlsns") },
 	func(c *core.Case) { fixedPlain(c, scenario{Adv: "tlsns-other+others"}, "tlsns") },
@@ -1804,7 +1824,11 @@ var fixedGroups = []func(c *core.Case){
 // fixedPlain runs one scenario whose peer goes through with TLS when asked
 // (so that the only ways out are a protected stream or an error), tee on and off.
 func fixedPlain(c *core.Case, sc scenario, what string) {
-	sc.Answer, sc.InTLS, sc.Cfg, sc.Domain, sc.Order, sc.TLSHdr, sc.CfgFunc, sc.Mechs = "proceed-tls", "full", "explicit", domains[2], []int{0, 1, 2, 3}, "complete", "static", "plain"
+	inTLS := "full"
+	if sc.InTLS != "" {
+		inTLS = sc.InTLS
+	}
+	sc.Answer, sc.InTLS, sc.Cfg, sc.Domain, sc.Order, sc.TLSHdr, sc.CfgFunc, sc.Mechs = "proceed-tls", inTLS, "explicit", domains[2], []int{0, 1, 2, 3}, "complete", "static", "plain"
 	c.Count("fixed_"+what+"_groups", 1)
 	teeGroupN(c, sc, []string{"both"}, 0)
 }
@@ -1886,7 +1910,7 @@ func Prop() *core.Prop {
 		"reuse_caller_config_compared_explicit-noname", "reuse_caller_config_compared_explicit-insecure", "reuse_caller_config_compared_explicit",
 		"fixed_several_features_groups_mechs_scram", "fixed_several_features_groups_mechs_both", "fixed_several_features_groups_mechs_plain",
 		"sessions_with_several_features_on_one_clear_list_mechs_scram", "repeated_sessions_compared", "in_tls_scram_exchanges_completed",
-		"fixed_s2s_groups", "fixed_tlsns_groups", "fixed_unix_groups", "fixed_tcp_groups", "transport_unix_sessions", "transport_tcp_sessions", "s2s_sessions", "s2s_forced_starttls",
+		"fixed_s2s_groups", "fixed_preauthn_groups", "sessions_created_with_the_authn_bit_set", "fixed_tlsns_groups", "fixed_unix_groups", "fixed_tcp_groups", "transport_unix_sessions", "transport_tcp_sessions", "s2s_sessions", "s2s_forced_starttls",
 		"feature_queries_after_handshake", "handshakes_after_clear_only_features", "protected_feature_data_seen",
 		"other_location_sni_checked_c2s", "other_location_sni_checked_s2s",
 		"clear_to_omitted", "clear_to_foreign-full", "clear_to_foreign-bare", "clear_to_foreign-domain", "clear_to_foreign_stopped_negotiation")
